@@ -131,7 +131,7 @@ func TestVerifC15(t *testing.T) {
 	p := vrep.Env()
 	res := vrep.New("C15", p)
 	defer res.Guard()
-	res.Rule = "E3: (a) all PC sequences of length 0-4 (thorough 5) over 7 real PCs (pointer-receiver method, generic instantiation, closure, inlined callee) + 2 bogus PCs, and repetitions 1..400 of one and of two alternating PCs, through the real EncodeStack/DecodeStack vs an uncompressed reference rendering; (b) all call paths of depth <= 4 (thorough 6) in a 3-function call graph executed twice through the real StackCounter.Inc; (c) DecodeStack/IsStackCounter on all strings of length <= 6 over {a . \" \\n /}; classes = (sequence length, truncated, ditto used)"
+	res.Rule = "E3: (a) all PC sequences of length 0-4 (thorough 5) over 7 real PCs (pointer-receiver method, generic instantiation, closure, inlined callee) + 2 bogus PCs, and repetitions 1..400 of one and of two alternating PCs, through the real EncodeStack/DecodeStack vs an uncompressed reference rendering; (b) all call paths of depth <= 4 (thorough 6) in a 3-function call graph executed twice through the real StackCounter.Inc, and 9 call paths of 21 frames that differ only beyond their 18 innermost frames under a counter of depth 32; (c) DecodeStack/IsStackCounter on all strings of length <= 6 over {a . \" \\n /}; classes = (sequence length, truncated, ditto used)"
 	res.Assumptions = []string{"the reference rendering takes frames from runtime.CallersFrames, as the implementation must"}
 	pool := zzvStackPool()
 	all := append(append([]uintptr{}, pool...), 1, ^uintptr(0)>>1)
@@ -263,6 +263,37 @@ func TestVerifC15(t *testing.T) {
 		}
 		res.Class(fmt.Sprintf("b/paths=%d", len(paths)))
 		res.Sample(6, map[string]any{"leg": "call-paths", "paths": len(paths), "counters": len(ctrs)})
+
+		// (b2) deep stacks under a counter of depth 32: call paths that share their 18 innermost frames (one
+		// function recursing) and differ only further out are different stacks, none of them truncated.
+		{
+			zzvSC = &StackCounter{name: "deep", depth: 32, file: &file{}}
+			var deep [][]int
+			for a := 0; a < 3; a++ {
+				for b := 0; b < 3; b++ {
+					deep = append(deep, append([]int{a, b}, make([]int, 18)...))
+				}
+			}
+			for round := 0; round < 2; round++ {
+				for _, pth := range deep {
+					zzvF0(pth)
+				}
+			}
+			res.Evaluations += int64(2 * len(deep))
+			dctrs := zzvSC.Counters()
+			if len(dctrs) != len(deep) {
+				res.Violate("paths-vs-counters:deep", fmt.Sprintf("%d distinct call paths of 21 frames under a counter of depth 32 produced %d counters", len(deep), len(dctrs)), nil)
+			}
+			for _, c := range dctrs {
+				if v := zzvExtra(c); v != 2 {
+					res.Violate("same-stack-different-counter:deep", fmt.Sprintf("deep counter %q has value %d after its call path ran twice", zzvShort200(c.Name()), v), nil)
+				}
+				if len(c.Name()) > 4096 {
+					res.Violate("name-too-long", "a deep call-path name exceeds 4096 bytes", nil)
+				}
+			}
+			res.Class(fmt.Sprintf("b2/deep-paths=%d", len(deep)))
+		}
 
 		// (c) arbitrary strings.
 		alpha := []string{"a", ".", "\"", "\n", "/"}
